@@ -24,10 +24,11 @@ pub fn to_listing(
             let mut data = vec![];
             for offset in &offsets {
                 for segment in ctx.segments().values() {
-                    if segment.range().start <= offset.pc.start
-                        && segment.range().end >= offset.pc.end
-                    {
-                        let mut start = offset.pc.start - segment.range().start;
+                    // The source map holds target addresses ('pc = ...'), the segment's range is where the bytes are stored
+                    let stored_at = (offset.pc.start as i64).wrapping_sub(segment.target_offset()) as usize;
+                    let stored_end = stored_at.saturating_add(offset.pc.end - offset.pc.start);
+                    if segment.range().start <= stored_at && segment.range().end >= stored_end {
+                        let mut start = stored_at - segment.range().start;
                         let end = start + (offset.pc.end - offset.pc.start);
 
                         let mut pc = offset.pc.start;
